@@ -128,12 +128,18 @@ def _n_of_text(rep, t):
 def exp_then_days(rep):
     """calendar step(s) first (cropped), then a day / week step from the cropped date"""
     def f(n, info):
-        cal = [(k, u) for k, u in info if u not in ("d", "w")]
+        cal = [(k, u) for k, u in info if u not in ("d", "w", "b")]
         days = sum(k * (7 if u == "w" else 1) for k, u in info if u in ("d", "w"))
+        bd = sum(k for k, u in info if u == "b")
         t = EXP[rep](n, cal)
         if t is None:
             return None
         n2 = _n_of_text(rep, t) + days
+        if bd:
+            # the k-th Mon-Fri day after / before the cropped date
+            if not (R.NMIN + 100 <= n2 <= R.NMAX - 100):
+                return None
+            n2 = R.add_bdays(n2, bd)
         if not (R.NMIN <= n2 <= R.NMAX):
             return None
         if rep == "bizda" and not R.is_bday(n2):
@@ -167,7 +173,7 @@ def _nt(rep):
 
 def _tag(rep):
     def t(info):
-        if len(info) > 1 and info[-1][1] in ("d", "w"):
+        if len(info) > 1 and info[-1][1] in ("d", "w", "b"):
             return "%s:then:%s" % (rep, "+".join(u for _, u in info))
         if len(info) > 1:
             return "%s:compose:%s" % (rep, "+".join(u for _, u in info))
@@ -230,7 +236,7 @@ def months(ctx, shard, nshards):
     # a calendar step followed by a day / week step: the day step starts from the cropped date
     then_m, then_y = [], []
     for _ in range(10):
-        kd = rnd.choice((1, -1, 1, -1, 7, 30, -45)), rnd.choice(("d", "d", "w"))
+        kd = rnd.choice((1, -1, 1, -1, 7, 30, -45)), rnd.choice(("d", "d", "w", "b", "b"))
         u = rnd.choice(("mo", "mo", "q"))
         p = (rnd.choice(KM[:14] if u == "mo" else KQ) * rnd.choice((1, -1)), u)
         then_m.append((["%+d%s" % p, "%+d%s" % kd], [p, kd]))
@@ -259,7 +265,7 @@ def months(ctx, shard, nshards):
 
 
 def _parse(d):
-    for u in ("mo", "q", "y", "d", "w"):
+    for u in ("mo", "q", "y", "d", "w", "b"):
         if d.endswith(u):
             return int(d[:-len(u)]), u
     raise ValueError(d)
@@ -272,7 +278,7 @@ def replay(ctx, subname, case):
     if n is not None:
         if case.get("outrep"):
             x = exp_other_cal(case["rep"], case["outrep"])(n, info)
-        elif info and info[-1][1] in ("d", "w"):
+        elif info and info[-1][1] in ("d", "w", "b"):
             x = exp_then_days(case["rep"])(n, info)
         else:
             x = EXP[case["rep"]](n, info)
